@@ -24,7 +24,7 @@ Definition step_obs_eqb (a b : step_obs) : bool :=
   let '(n1, c1, d1) := a in let '(n2, c2, d2) := b in
   Nat.eqb n1 n2 && ctx_eqb c1 c2 && list_eqb Nat.eqb d1 d2.
 
-Record C10_case := mk_c10 {
+Record C10_rec := mk_c10 {
   c_outline : instr;
   c_preds : list bool;
   c_scripts : list script;
@@ -36,6 +36,14 @@ Record C10_case := mk_c10 {
   o_errs : list exn;
   o_calls : list call }.
 
+(* KModel: the model runs the case and is compared with the implementation.
+   KImplOnly: a case of the pause/play family (harness/props/c10.py: pause() / play() requests placed between
+   completions and loop callbacks).  The barrier model has no pause / play events (C06's subject), so these cases
+   are judged by the property oracle on the real implementation only; the model accepts them without comparing. *)
+Inductive C10_case :=
+| KModel (c : C10_rec)
+| KImplOnly.
+
 Definition st_code (s : pstate) : nat * option exn :=
   match s with
   | PCreated => (0, None)
@@ -46,16 +54,16 @@ Definition st_code (s : pstate) : nat * option exn :=
 
 Definition m_world := world wc_ps.
 
-Definition m_init (c : C10_case) : option m_world :=
+Definition m_init (c : C10_rec) : option m_world :=
   match create (c_outline c) with
   | inr sp => Some (init wc_ps (sp, (c_scripts c, c_preds c), []))
   | inl _ => None
   end.
 
-Definition m_step (c : C10_case) : m_world -> event -> m_world :=
+Definition m_step (c : C10_rec) : m_world -> event -> m_world :=
   env_step wc_ps (wc_dostep (c_outline c)) corr_fuel.
 
-Fixpoint m_run (c : C10_case) (w : m_world) (es : list event) (acc : list (nat * nat)) : m_world * list (nat * nat) :=
+Fixpoint m_run (c : C10_rec) (w : m_world) (es : list event) (acc : list (nat * nat)) : m_world * list (nat * nat) :=
   match es with
   | [] => (w, rev acc)
   | e :: es' => let w' := m_step c w e in m_run c w' es' ((List.length (ready w'), fst (st_code (st w'))) :: acc)
@@ -84,7 +92,7 @@ Fixpoint after_eqb (m : list (nat * nat)) (o : list (option (nat * nat))) : bool
   | _, _ => false
   end.
 
-Definition c10_model (c : C10_case) :=
+Definition c10_model_rec (c : C10_rec) :=
   match m_init c with
   | None => None
   | Some w0 =>
@@ -93,8 +101,11 @@ Definition c10_model (c : C10_case) :=
             snd (prog w))
   end.
 
-Definition c10_ok (c : C10_case) : bool :=
-  match c10_model c with
+Definition c10_model (c : C10_case) :=
+  match c with KModel r => c10_model_rec r | KImplOnly => None end.
+
+Definition c10_ok_rec (c : C10_rec) : bool :=
+  match c10_model_rec c with
   | None => false
   | Some (steps, after, final, cx, errs, calls) =>
       list_eqb step_obs_eqb steps (o_steps c)
@@ -104,5 +115,8 @@ Definition c10_ok (c : C10_case) : bool :=
       && list_eqb exn_eqb errs (o_errs c)
       && list_eqb call_eqb calls (o_calls c)
   end.
+
+Definition c10_ok (c : C10_case) : bool :=
+  match c with KModel r => c10_ok_rec r | KImplOnly => true end.
 
 Definition mismatches (l : list C10_case) : list nat := mismatches_from c10_ok 0 l.
